@@ -1,3 +1,4 @@
+import Ntrip.Guards.Writes
 import Ntrip.Guards.Apps
 import Ntrip.Model.Analyse
 import Ntrip.Generated.Skeletons
@@ -90,5 +91,11 @@ example : (getMessage crc24q (newState 0) [0xD3, 0, 2, 0x3E, 0xD0, 0xA4, 0xDF, 0
 
 /-- Tie T1 (guards): the conditions and the effects (field writes, helper calls) of `Analyse`, `analyse*`, `String`, `Copy`, the message constructors: decoding writes `ErrorMessage`/`Readable` by plain assignment and nothing else. -/
 theorem tie_guards_analyse : type_of% Ntrip.Guards.analyse := Ntrip.Guards.analyse
+
+/-- Tie T1 (receiver writes): no method of a decoded message, header, satellite or signal cell assigns to its receiver: display and the range accessors cannot alter what was decoded. -/
+theorem tie_writes_decoders_pure : type_of% Ntrip.Guards.decoders_pure := Ntrip.Guards.decoders_pure
+
+/-- Tie T1 (receiver writes): the handler's methods write only its week-start/previous-timestamp fields (the time lines) and the push-back buffer. -/
+theorem tie_writes_handler_state : type_of% Ntrip.Guards.handler_state := Ntrip.Guards.handler_state
 
 end Ntrip.C15
